@@ -307,6 +307,20 @@ class MTCoherenceAnalyzer(BaseAnalyzer):
         self.alpha = alpha
         self._L = self.input.data.shape[-1] // 2 + 1
         self._adaptive = adaptive
+        self._bandwidth_arg = bandwidth
+
+    def set_input(self, input):
+        """Set the input of the analyzer and recompute what the constructor
+        derives from it (NW, bandwidth, number of frequencies)"""
+        BaseAnalyzer.set_input(self, input)
+        N = input.shape[-1]
+        Fs = input.sampling_rate
+        if self._bandwidth_arg is not None:
+            self.NW = self._bandwidth_arg / (2 * Fs) * N
+        else:
+            self.NW = 4
+            self.bandwidth = self.NW * (2 * Fs) / N
+        self._L = input.data.shape[-1] // 2 + 1
 
     @desc.setattr_on_read
     def tapers(self):
